@@ -75,10 +75,43 @@ class CallGraph(object):
                         out.append(k.methods[meth].qual)
                         break
             return out, None
+        if isinstance(fn.value, ast.Name) and fn.value.id in f.module.imports and not any(fn.value.id == p_ for p_ in f.params()):
+            # a function of another module of the package called through the module (`util.inflate_long(...)`)
+            src, orig = f.module.imports[fn.value.id]
+            modname = None
+            if src in ("paramiko", "") and orig and orig in self.prog.modules:
+                modname = orig
+            elif src.startswith("paramiko.") and orig is None and src.split(".", 1)[1] in self.prog.modules:
+                modname = src.split(".", 1)[1]
+            if modname is not None:
+                cand = self.prog.func("%s.%s" % (modname, meth), required=False)
+                if cand is not None:
+                    out.append(cand.qual)
+                    return out, None
         tcls = None
         for (owner, r), target in RECEIVERS.items():
             if r == recv and (owner is None or (cls and self.prog.is_subclass(cls, owner))):
                 tcls = target
+        if tcls is None and isinstance(fn.value, ast.Name):
+            # a local bound to a freshly constructed object of a program class (`msg = Message(sig)`), or one of the
+            # conventional names of a received Message (`m`, `msg`, `message` parameters of the parse handlers)
+            cons = set()
+            other = False
+            for st in walk_no_defs(f.node):
+                if isinstance(st, ast.Assign) and any(isinstance(t_, ast.Name) and t_.id == recv for t_ in st.targets):
+                    v = st.value
+                    if isinstance(v, ast.Call) and isinstance(v.func, ast.Name) and v.func.id in self.prog.classes:
+                        cons.add(v.func.id)
+                    else:
+                        other = True
+            cands = sorted(cons) if cons and not other else []
+            if not cands and recv in ("m", "msg", "message") and recv in f.params() and self.prog.method("Message", meth, required=False) is not None:
+                cands = ["Message"]
+            for k in cands:
+                t = self.prog.method(k, meth, required=False)
+                if t is not None:
+                    out.append(t.qual)
+            return out, None
         if tcls == "<kex>":
             for k in self.kex:
                 t = self.prog.method(k, meth, required=False)
